@@ -26,6 +26,12 @@ def objOf (j : Json) : Except String (List Rat → Rat) := do
       lsum ((List.zip (List.zip p h) (List.zip t x)).map fun ((pi, hi), ti, xi) => max (pi * (ti - xi)) (hi * (xi - ti)))
   | _ => throw "unknown objective"
 
+/-- Smallest gap |f(c) − f(d)| met along the iteration: an (almost) exact tie is where binary64 rounding can
+legitimately take the other branch. -/
+def minGap (f : Rat → Rat) (r r2 : Rat) : Nat → GState → Rat
+  | 0, s => if s.yc < s.yd then s.yd - s.yc else s.yc - s.yd
+  | k+1, s => min (if s.yc < s.yd then s.yd - s.yc else s.yc - s.yd) (minGap f r r2 k (gssStep f r r2 s))
+
 def gssH : Handler := fun j => do
   let F ← objOf (← field j "obj")
   let cur ← listOf ratOf (← field j "cur")
@@ -43,7 +49,8 @@ def gssH : Handler := fun j => do
   let s0 := gssInit f r r2 a b
   let sf := gssIter f r r2 (n - 1) s0
   pure <| jObj [("x", jRat res.1), ("fx", jRat res.2), ("ordered", jBool (allOrdered f r r2 (n - 1) s0)),
-                ("fa", jRat sf.a), ("fb", jRat sf.b), ("degenerate", jBool (decide (b - a ≤ tol)))]
+                ("fa", jRat sf.a), ("fb", jRat sf.b), ("degenerate", jBool (decide (b - a ≤ tol))),
+                ("minGap", jRat (minGap f r r2 (n - 1) s0))]
 
 def enumH : Handler := fun j => do
   let F ← objOf (← field j "obj")
